@@ -426,6 +426,41 @@ func pairOracles(x *Ctx, reqs []*breq) {
 			}
 		}
 	}
+	// every member's connection must still be flushed by the session's frames:
+	// a coalesced component update sent by each member in turn reaches the
+	// subscriber c within two frames (if the component still exists)
+	tidL := x.Vars["tid"].(uint32)
+	eaL := x.Vars["ea"].(uint32)
+	if sess, ok := x.W.Store.GetByGlobalID(x.J["a"].SessionID); ok && !hasKind(reqs, "unsub") && !left["c"] {
+		has := false
+		for _, ec := range sess.GetEntityComponents().List(tidL) {
+			if ec.EntityId == eaL {
+				has = true
+			}
+		}
+		if _, live := sess.EntityByID(eaL); has && live {
+			for _, n := range members {
+				if n == "c" {
+					continue
+				}
+				x.C["c"].Take()
+				data := "post-" + n
+				x.C[n].SendMsg(&hagallpb.EntityComponentUpdate{Type: hagallpb.MsgType_MSG_TYPE_ENTITY_COMPONENT_UPDATE, Timestamp: x.W.NextTS(), EntityComponentTypeId: tidL, EntityId: eaL, Data: []byte(data)})
+				x.W.Run()
+				x.W.Tick(x.W.Cfg.FrameDuration)
+				x.W.Tick(x.W.Cfg.FrameDuration)
+				got := false
+				for _, r := range x.C["c"].All() {
+					if m, ok := r.Msg.(*hagallpb.EntityComponentUpdateBroadcast); ok && string(m.EntityComponent.GetData()) == data {
+						got = true
+					}
+				}
+				if !got {
+					x.fail("liveness", "member-no-longer-flushed:"+n, "after the block a component update sent by %s is never relayed (2 frames later): its connection is no longer flushed by the session's frame worker", n)
+				}
+			}
+		}
+	}
 	// C01: every member's view equals what a newcomer is handed
 	x.conn("probe")
 	pj := join(x.W, x.C["probe"], x.J["a"].SessionID)
